@@ -143,6 +143,10 @@ _PROCESS_DEPENDENT = [
     'sorted({"b", "a"}) == ["a", "b"]', 'len({"a", "b"}) == 2', 'min({"u", "v"}) == "u"',
     'id(None) % 16 == 0', 'hash(1.5) == 1', 'hash("") == 0', 'str(frozenset({"r", "s"}))[11] == "r"',
     'list(set("hello"))[0] == "h"', 'next(iter({"one", "two", "three"})) == "one"',
+    '"abc".__hash__() > 0', '"%s" % {"a", "b"} == "{\'a\', \'b\'}"', '"{}".format({"x", "y"}) == "{\'x\', \'y\'}"',
+    '"-".join({"p", "q", "r"}) == "p-q-r"', '("%s" % ({"m", "n"},))[2] == "m"', 'f"{ {1, 2} }" == "{1, 2}"',
+    '"abc".__hash__() % 2 == 0', 'str({"k": {"a", "b"}})[8] == "a"', 'sorted({"b", "a"})[0] == "a"', '[*{"u", "v"}] == ["u", "v"]',
+    '(*{"u", "v"},) == ("u", "v")', 'dict.fromkeys({"a", "b"}) == {"a": None, "b": None}', 'list(dict.fromkeys({"a", "b"}))[0] == "a"',
 ]
 
 
@@ -286,6 +290,16 @@ def gen_module(rng: random.Random, process_dependent: bool = False, special: boo
             '"yet another constant, with spaces"', "[10, 20, 30, 40, 50, 60, 70, 80]", '"https://example.invalid/some/long/url"',
             '"the quick brown fox jumps over it"', "(100, 200, 300, 400, 500, 600, 700)", '"SELECT name FROM table WHERE id = 1"',
         ], n_consts)
+        if rng.random() < 0.25:
+            # every use inside one function that starts on line 1: module and function tie as "latest common scope"
+            c0 = consts[0]
+            body = "".join(f"    v{i} = {c0}\n" for i in range(uses + 1))
+            text = "def main():\n" + body + "    return [" + ", ".join(f"v{i}" for i in range(uses + 1)) + "]\n\n\nprint(main())\n"
+            try:
+                ast.parse(text)
+                return text
+            except (SyntaxError, ValueError):
+                pass
         lines = []
         order = [c for c in consts for _ in range(uses)]
         rng.shuffle(order)
